@@ -233,7 +233,7 @@ func (i *interpreter) rangeIterX(x value, t types.Type) iter {
 				panic(unsupported("range over a pointer-keyed map with more than one entry"))
 			}
 		}
-		if i.m != nil && i.m.MapOrderChoice && i.x != nil && len(keys) > 1 && i.callerIsRepo() {
+		if i.m != nil && i.m.MapOrderChoice && !i.mapOrderFrozen && i.x != nil && len(keys) > 1 && i.callerIsRepo() {
 			if len(keys) > i.m.MapOrderMaxLen {
 				panic(boundErr{fmt.Sprintf("map with %d entries exceeds schedule bound K=%d", len(keys), i.m.MapOrderMaxLen)})
 			}
